@@ -34,7 +34,13 @@ def run_css(pid, tier, seed, replay, families, aspects, rule, ratios=(750,), sam
         for rec in recs:
             ck.evaluations += 1
             if rec["panic"]:
-                ck.notes.append("compiler panicked (C01): %r" % rec["src"][:80]) if len(ck.notes) < 30 else None
+                # the sheet is well-formed by construction (the specification gives it two token sequences): a compiler that
+                # panics on it produces neither, so what the property demands of this input does not exist
+                pm = rec["panic"][0] if isinstance(rec["panic"], list) and rec["panic"] else rec["panic"]
+                ck.report({"sig": "compiler-panic", "src": rec["src"], "opts": rec["opts"], "msg": str(pm)[:300], "family": fam,
+                           "abstract": cases[rec["case"]]},
+                          "the stylesheet compiler panicked on a well-formed sheet (%s): no output to compare with the specification\n  input : %r\n  opts  : %s" % (
+                              str(pm)[:200], rec["src"], json.dumps(rec["opts"])))
                 continue
             ck.traces += 1
             ck.nontrivial(rec["src"] + json.dumps(rec["opts"], sort_keys=True))
